@@ -286,10 +286,11 @@ Definition f_algorithms_reference_randmio_dir_connected : cmd :=
           Skip))))).
 Definition f_algorithms_reference_randmio_dir_signed : cmd :=
   (Seq (GetRng "rng" ESeed)
-  (Loop (Loop (Seq (Call "utils.miscellaneous_utilities.pick_four_unique_nodes_quickly" (EVar "rng"))
-        (Choice (Choice (Call "utils._verif.emit" ENone)
-            Skip)
-          Skip))))).
+  (Choice (Loop (Loop (Seq (Call "utils.miscellaneous_utilities.pick_four_unique_nodes_quickly" (EVar "rng"))
+          (Choice (Choice (Call "utils._verif.emit" ENone)
+              Skip)
+            Skip))))
+    Skip)).
 Definition f_algorithms_reference_randmio_und : cmd :=
   (Choice (Seq (GetRng "rng" ESeed)
     (Loop (Loop (Seq (Loop (Seq (DrawLocal "rng")
@@ -317,10 +318,11 @@ Definition f_algorithms_reference_randmio_und_connected : cmd :=
   Skip).
 Definition f_algorithms_reference_randmio_und_signed : cmd :=
   (Seq (GetRng "rng" ESeed)
-  (Loop (Loop (Seq (Call "utils.miscellaneous_utilities.pick_four_unique_nodes_quickly" (EVar "rng"))
-        (Choice (Choice (Call "utils._verif.emit" ENone)
-            Skip)
-          Skip))))).
+  (Choice (Loop (Loop (Seq (Call "utils.miscellaneous_utilities.pick_four_unique_nodes_quickly" (EVar "rng"))
+          (Choice (Choice (Call "utils._verif.emit" ENone)
+              Skip)
+            Skip))))
+    Skip)).
 Definition f_algorithms_reference_randomize_graph_partial_und : cmd :=
   (Seq (GetRng "rng" ESeed)
   (Loop (Seq (Loop (Seq (DrawLocal "rng")
